@@ -22,7 +22,7 @@ Oracle    (1) spans contiguous from 0 to len(src), non-empty;
               regex) which is stock except that a BLOCK tag ends at the first `%}` outside a
               quoted string;
           (6) TemplateSyntaxError only where the reference finds an unbalanced quote / no
-              closing `%}`; any other exception class is a violation.
+              closing `%}`; any other exception class, or no answer within 2 s, is a violation.
           The reference is itself validated against stock on every quote-free source
           (disagreement = harness error, exit 2).
           Part B: Template(src + '{% bogus %}') must fail exactly like Django's Parser run on
@@ -42,6 +42,7 @@ Agnostic / excluded corners (accepted under either reading)
 from __future__ import annotations
 
 import re
+import signal
 from collections import Counter
 from itertools import product
 
@@ -217,6 +218,18 @@ def invariant_problem(src: str, toks):
     return None
 
 
+HANG_SECONDS = 2.0
+MAX_HANGS = 2
+
+
+class _Hang(BaseException):
+    pass
+
+
+def _on_alarm(signum, frame):
+    raise _Hang()
+
+
 _TAG_RE = {}
 
 
@@ -240,13 +253,20 @@ def lex_case(src: str, dotall: bool):
 
     info = {"cls": "", "obs": None, "ext": 0}
     impl = err = None
+    signal.signal(signal.SIGALRM, _on_alarm)
+    signal.setitimer(signal.ITIMER_REAL, HANG_SECONDS)
     try:
         impl = _tup(parse_template(src))
     except TemplateSyntaxError as e:
         err = e
+    except _Hang:
+        info["cls"] = "hang"
+        return ("hang", f"parse_template did not return within {HANG_SECONDS} s"), info
     except Exception as e:  # clause 6
         info["cls"] = "exception"
         return ("exception", f"parse_template raised {type(e).__name__}: {e}"), info
+    finally:
+        signal.setitimer(signal.ITIMER_REAL, 0)
     stock = _tup(DebugLexer(src).tokenize())
     quoted = False
     for ty, contents, _a, _b, _l in stock:
@@ -352,15 +372,21 @@ def route_case(src: str, dotall: bool, tag_name: str):
     else:
         info["cls"] = "agnostic"
     for dbg_flag in (True, False):
+        signal.signal(signal.SIGALRM, _on_alarm)
+        signal.setitimer(signal.ITIMER_REAL, HANG_SECONDS)
         try:
             Template(src, engine=engines[dbg_flag])
             got = ("ok",)
+        except _Hang:
+            return ("route-hang", f"Template(src) did not return within {HANG_SECONDS} s"), info
         except TemplateSyntaxError as e:
             tok = getattr(e, "token", None)
             got = ("TSE", str(e), (tok.token_type.name, tok.contents, tok.position, tok.lineno) if tok is not None else None,
                    getattr(e, "template_debug", None))
         except Exception as e:
             return ("route-exception", f"Template(src) raised {type(e).__name__}: {e}"), info
+        finally:
+            signal.setitimer(signal.ITIMER_REAL, 0)
         info["obs"] = got[:3]
         if agnostic:
             continue
@@ -430,6 +456,7 @@ def _worker(w, W, payload):
                                        "fragments": "+".join(FRAGMENT_NAMES[i] for i in seq)})
 
     bogus = "{% bogus %}"
+    hangs = 0
     try:
         for part, kind, idxs, lo, hi in payload["jobs"]:
             pre = part + ":"
@@ -461,6 +488,13 @@ def _worker(w, W, payload):
                         agg.observed.add((part, hash(repr(info["obs"])) & 0xFFFFFFFFFFFF))
                     if problem:
                         note(kind, problem[0], problem[1], src, seq, dotall)
+                        if problem[0] in ("hang", "route-hang"):
+                            hangs += 1
+                if hangs >= MAX_HANGS:  # every further case may cost HANG_SECONDS: stop, the run is a violation anyway
+                    agg.caps.append(f"worker {w} stopped after {hangs} hangs")
+                    break
+            if hangs >= MAX_HANGS:
+                break
     finally:
         set_mode(True)
     for key, (order, text, case) in best.items():
@@ -477,8 +511,12 @@ def run(ctx):
     for job in jobs:
         print(f"C09: {job[0]}: {len(job[2])} fragments, lengths {job[3]}..{job[4]}: {_job_size(job)} sources", flush=True)
     agg = par.run_sharded(_worker, {"alphabet": A, "jobs": jobs, "tag_name": tag_name})
+    if agg.caps:
+        if not agg.failures:
+            raise par.HarnessError(f"workers stopped early without a failure: {agg.caps}")
+        ev.caps_hit.extend(agg.caps)
     for job in jobs:
-        if agg.extra[job[0] + ":states"] != _job_size(job):
+        if not agg.caps and agg.extra[job[0] + ":states"] != _job_size(job):
             raise par.HarnessError(f"enumeration incomplete for {job[0]}: {agg.extra[job[0] + ':states']}/{_job_size(job)} sources")
     # one report per (part, clause, mode): the smallest failing source, named by its fragments (seed independent)
     groups = {}
